@@ -37,6 +37,10 @@ add("C13", "explicit-state BFS over pass sequences on real modules (state = cano
     "BFS (depth 2 quick / 3 thorough) over 12 transitions (six compaction/reordering passes, inlining with inline-all and inline-none policies, sroa, mem2reg, dce, and the DXIL pipeline prepareModule+runOptPasses) from the lowered modules of every F2 control-flow tree within the node budget (3 positions) and F1 representatives. Each transition is judged against its own input state: no new IR-rule finding class, IR-interpreter result unchanged on all case inputs, and the pass applied twice equals once. 'Start from non-initial states' is inherent: every pass is applied to the outputs of every other pass.",
     "Trusted base: internal/irx (interpreter incl. the documented Alias/Phi semantics, strict validator, canonical hash). Exported ir.* passes are not applied to states containing DXIL-only SSA kinds; on such states only structural rules are judged. Hook: dxil/verif_export.go (build tag verif).", "DESIGN.md §3 C13")
 
+add("C18", "bounded-exhaustive program x configuration enumeration; every returned container parsed by an independent DXBC + LLVM 3.7 bitstream reader (rule set as invariants); determinism by repeated call",
+    "dxil.Compile is run on every entry point of F1 representatives, F2 trees, micro-programs and the corpus under shader models 6.0/6.2/6.6 and both hash modes; each container is checked against 79 rules (container arithmetic and part bounds, DXBC digest / bypass sentinel, HASH part, program header vs requested stage and shader model, bitstream block nesting/lengths/abbreviations/alignment, module- and function-level operand soundness with rebuilt value numbering, typing and SSA dominance, dx metadata vs PSV0, signatures). An error return is allowed; a second call must return identical bytes.",
+    "Trusted base: internal/dxbc (written from format documentation; cross-checked on the corpus against llvm-bcanalyzer and llvm-dis + opt -verify).", "DESIGN.md §3 C18")
+
 NA = {
 }
 for i in range(1, 20):
